@@ -19,7 +19,10 @@ SCOPE = ("Complete enumeration, on every run, of (L) all natural loops of the cr
          "structural checks; (X) every array index and every indexing call outside the parser: recognised idiom, "
          "`index < len` established on every path, or reviewed entry; (V) presence of every refusal clause of "
          "the datagram/ack validators and that the sinks are guarded by them; (I) the frame parser's length guards "
-         "dominate its indexing. Not decided: absence of implicit arithmetic-overflow panics (dev profile only); the numeric "
+         "dominate its indexing; (D) every integer division has a non-zero divisor; (O, Q, U) every overflow-checked shift, "
+         "addition, multiplication and subtraction of the dev-profile MIR cannot overflow: operand bit-widths, structural "
+         "bounds, established comparisons, or a reviewed entry, with values converted from unbounded float expressions "
+         "never assumed small; (K) the socket is polled again after every datagram. Not decided: the numeric "
          "window invariants behind the reviewed entries are argued, not proved; wall-clock bounds.")
 
 HC = "half_connection::HalfConnection::"
